@@ -94,6 +94,7 @@ static struct {
   int n_change, change_idx;
   uint64_t watch_hits;
   uint64_t watch_hits_t[VS_MAX_THREADS];
+  uint64_t points_t[VS_MAX_THREADS];
   int stalled_tid;  // thread held back by the stall strategy, -1 none
   uint64_t stall_since;
   range_t watch[MAX_RANGES];
@@ -360,6 +361,7 @@ static void finalize_result(int status) {
   vs_res->points = vs.points;
   if (vs.watch_hits) vs_label_add("watch_hits", vs.watch_hits);
   for (int i = 0; i < VS_MAX_THREADS; i++) vs_res->watch_hits_t[i] = vs.watch_hits_t[i];
+  for (int i = 0; i < VS_MAX_THREADS; i++) vs_res->points_t[i] = vs.points_t[i];
   uint64_t h = 1469598103934665603ull;
   for (uint32_t i = 0; i < vs_res->n_decisions; i++) {
     h = (h ^ vs_res->dec_point[i]) * 1099511628211ull;
@@ -808,23 +810,27 @@ static void slow_path(void) {
 }
 
 static int runnable_count(void);
+static void do_stall(vthread_t* t) {
+  if (vs.stalled_tid >= 0 || vs.fair || runnable_count() <= 1) return;
+  vs.stalled_tid = t->id;
+  vs.stall_since = vs.points;
+  t->state = 4;  // stalled
+  vs_label_add("stalled", 1);
+  vthread_t* nt = pick_random_other();
+  if (nt && nt != t) {
+    vs_res->involuntary++;
+    switch_to(nt);
+  } else {
+    release_stall();
+  }
+}
 static inline void watch_hit(void) {
   vs.watch_hits++;
   vthread_t* t = vs.cur;
   vs.watch_hits_t[t->id]++;
   // stall strategy: hold ONE thread at one of ITS OWN accesses to the watched object while all the others run on
-  if (vs.cfg.stall_thread == t->id + 1 && vs.stalled_tid < 0 && !vs.fair && vs.watch_hits_t[t->id] == vs.cfg.stall_at && runnable_count() > 1) {
-    vs.stalled_tid = t->id;
-    vs.stall_since = vs.points;
-    t->state = 4;  // stalled
-    vs_label_add("stalled", 1);
-    vthread_t* nt = pick_random_other();
-    if (nt && nt != t) {
-      vs_res->involuntary++;
-      switch_to(nt);
-    } else {
-      release_stall();
-    }
+  if (!vs.cfg.stall_any && vs.cfg.stall_thread == t->id + 1 && vs.watch_hits_t[t->id] == vs.cfg.stall_at) {
+    do_stall(t);
     return;
   }
   if (vs.cfg.targeted && !vs.fair && vs.cfg.strategy == VS_STRAT_PCT && vs.change_idx < vs.n_change &&
@@ -859,6 +865,12 @@ static inline void sched_point(uintptr_t a, int size, int is_write) {
   vs.points++;
   t->run_len++;
   if (size) shadow_check(a, size, is_write);
+  if (vs.cfg.stall_thread == t->id + 1) {
+    // "stall at any access" flavour: the thread's own k-th scheduling point
+    if (++vs.points_t[t->id] == vs.cfg.stall_at && vs.cfg.stall_any) do_stall(t);
+  } else {
+    vs.points_t[t->id]++;
+  }
   if (vs.n_watch) {
     for (int i = 0; i < vs.n_watch; i++)
       if (a >= vs.watch[i].lo && a < vs.watch[i].hi) {
@@ -1040,6 +1052,7 @@ int vs_run_inproc(const vs_config_t* cfg, vs_main_fn fn, void* arg) {
   vs.n_change = vs.change_idx = 0;
   vs.watch_hits = 0;
   bset_(vs.watch_hits_t, 0, sizeof vs.watch_hits_t);
+  bset_(vs.points_t, 0, sizeof vs.points_t);
   vs.stalled_tid = -1;
   if (!vs.cfg.stall_len) vs.cfg.stall_len = 20000;
   vs.n_watch = 0;
